@@ -258,6 +258,15 @@ std::vector<T> near_tie_values()
     return out;
 }
 
+// quotient() only (pairs whose exponents are too far apart for the other operators / conversions to compile)
+template<class LT, class RT>
+void quot_all(sink& out, int salt)
+{
+    auto ls = number_values<LT>(thorough() ? 20 : 6, static_cast<std::uint64_t>(salt) * 10 + 1, 1, false);
+    auto rs = number_values<RT>(thorough() ? 20 : 6, static_cast<std::uint64_t>(salt) * 10 + 2, 1, false);
+    quot(out, ls, rs);
+}
+
 template<class T>
 void single_all(sink& out, int salt)
 {
